@@ -24,6 +24,9 @@ static void c19_in_stream(OasisStream *s) {
     VF_IN_ARR(IN_tape);
     VF_IN(int, IN_err0);
     VF_ASSUME(IN_err0 >= 0 && IN_err0 <= 16);
+#ifdef VF_POS0_ZERO
+    VF_ASSUME(IN_pos0 == 0);   /* this group fixes the start position (see the group's bound text) */
+#endif
     vf_tape_open();
     memset(s, 0, sizeof *s);
     s->file = G_file;
